@@ -266,6 +266,16 @@ def oracle(case):
             return [Violation("c14-multimap:" + tok.split(":")[0], case,
                               "op %d %s: result %s items %s; reference multimap: %s %s"
                               % (i, tok, got, list(h.items()), want, ref.items))]
+        # every view of the collection shows the same entries in the same order
+        views = {"iter": list(h), "keys/values": list(zip(h.keys(), h.values())), "names": None}
+        for what, got_v in views.items():
+            if got_v is not None and [tuple(x) for x in got_v] != ref.items:
+                return [Violation("c14-view:" + what, case, "after op %d %s: %s gives %r, items() %r"
+                                  % (i, tok, what, got_v, ref.items))]
+        if list(h.names()) != [k for k, _ in ref.items] or len(h) != len(ref.items):
+            return [Violation("c14-view:names", case, "after op %d %s: names() %r / len %d, items %r"
+                              % (i, tok, list(h.names()), len(h), ref.items))]
+        repr(h)
         if strict:
             for k, v in h.items():
                 for s in (k, v):
